@@ -246,3 +246,40 @@ def antenna_coordinates_and_dipole_gains_sampled():
     prove("dipole-gain-is-sin-of-the-angle-from-its-axis", abs(got - np.sqrt(max(0.0, 1 - (Z / rr) ** 2))) <= 1e-8)
     pol = np.array([real("pol_x", -1, 1), real("pol_y", -1, 1), real("pol_z", -1, 1)])
     prove("dipole-polarization-gain-is-the-projection-on-its-axis", abs(dip.polarization_gain(pol) - float(np.dot(pol, za))) <= 1e-9)
+
+
+@harness(clause="dipole")
+def dipole_band_pass_is_evaluated_at_the_signed_frequencies():
+    """DipoleAntenna.frequency_response is the transfer function of its (b, a) coefficients at s = 2 pi i f for the
+    frequencies AS GIVEN (sign included: a real filter has H(-f) = conj H(f), which is what makes the filtered signal
+    real) - scipy.signal.freqs itself is a library routine (N); what is proved is what it is asked"""
+    d = obj(DIP, filter_coeffs=("numerator", "denominator"))
+    asked = []
+
+    def freqs(b, a, worN=200, **kw):
+        asked.append((b, a, worN))
+        return worN, ("transfer-function-values", len(asked))
+    use_lib_stub("scipy.signal.freqs", freqs)
+    fs = symarr("frequencies")
+    h = d.frequency_response(fs)
+    i = fresh_index("i", len(fs))
+    prove("asked-once-with-the-antenna's-coefficients", And(len(asked) == 1, asked[0][0] == "numerator", asked[0][1] == "denominator"))
+    prove("at-the-angular-frequencies-2-pi-f-sign-included", And(len(asked[0][2]) == len(fs), eq(asked[0][2][i], 2 * pi * fs[i])))
+    prove("returns-the-transfer-function-values", h == ("transfer-function-values", 1))
+
+
+@harness(clause="bounded-geometry", bounded=30, label="B")
+def dipole_band_pass_sampled():
+    """the dipole's response is that of a real first-order Butterworth band-pass: Hermitian in f, unit gain at the
+    geometric centre of the band, 1/sqrt(2) at both band edges"""
+    fc = 10 ** real("log10_center", 7.5, 9)
+    bw = fc * real("relative_bandwidth", 0.1, 1.2)
+    dip = new(DIP, name="d", position=(0, 0, -100), center_frequency=fc, bandwidth=bw, temperature=0, resistance=0,
+              orientation=(0, 0, 1), trigger_threshold=0, effective_height=1.0, noisy=False)
+    lo, hi = fc - bw / 2, fc + bw / 2
+    f = np.array([lo, np.sqrt(lo * hi), hi, real("probe_fraction", 0.05, 3) * fc])
+    hp = np.asarray(dip.frequency_response(f))
+    hn = np.asarray(dip.frequency_response(-f))
+    prove("hermitian-in-frequency", bool(np.allclose(hn, np.conj(hp), rtol=1e-9, atol=1e-12)))
+    prove("unit-gain-at-the-band-centre", abs(abs(hp[1]) - 1) <= 1e-9)
+    prove("half-power-at-the-band-edges", abs(abs(hp[0]) - np.sqrt(0.5)) <= 1e-9 and abs(abs(hp[2]) - np.sqrt(0.5)) <= 1e-9)
